@@ -164,7 +164,7 @@ void EventLoop::queueInLoop(Functor cb)
   pendingFunctors_.push_back(std::move(cb));
   }
 
-  if (!isInLoopThread() || callingPendingFunctors_)
+  if (!isInLoopThread() || callingPendingFunctors_ || !looping_)
   {
     wakeup();
   }
